@@ -122,11 +122,9 @@ def run(ck, w):
     common.reuse_guarded(ck, w, "C14.2a")
     cfb, sites = common.reuse_sites(w)
     o = ck.ob("C14.2b", "copy_file: once the entry is known unchanged and present, no source file is opened and nothing is stored")
-    heur = events_of(lib, cfb, common.HEUR)
-    pres = common.presence_tests(w, cfb)
     edges = set()
-    for e in pres:
-        edges |= rules.bool_switch_edges(cfb, e, True)
+    for g_ in common.presence_guards(w, cfb):
+        edges |= g_.true_edges
     if not edges:
         ck.fail(o, cfb.name, "no presence-true edge", "cannot locate the unchanged path")
     else:
